@@ -204,4 +204,25 @@ def build(rng: random.Random, size: str = "quick"):
             if accs:
                 # an unvalidated BBAN of the same bank whose account breaks off the computation half-way
                 add({"fn": "bban", "country": "DE", "value": code + accs[0][:5] + "A" + accs[0][6:]}, f"api:DE:{m}")
+    # one object shared by several callers: validated under different flags / read at the same time
+    de_listed = [k for k in keys if k[0] == "DE" and idx[k][0].get("checksum_algo") in G.METHODS][:1]
+    shared = [("bic", "1234DEWW", [{}, {"enforce_swift_compliance": True}]), ("bic", "DEUTDEFF500", [{}, {"enforce_swift_compliance": True}]), ("bic", "DEUTDEF", [{}, {"enforce_swift_compliance": True}])]
+    for k_ in de_listed:
+        m_ = idx[k_][0]["checksum_algo"]
+        accs_ = german_classes(m_, rng, 1)
+        for a_ in accs_[:2]:
+            shared.append(("iban", R.make_iban("DE", k_[1] + a_), [{}, {"validate_bban": True}]))
+    shared.append(("iban", R.make_iban("BE", "539007547035"), [{}, {"validate_bban": True}]))
+    for cls_, text_, kws_ in shared:
+        for kw_ in kws_:
+            add({"fn": "shared_validate", "cls": cls_, "text": text_, "kw": kw_}, f"shared:{cls_}:{text_}")
+        add({"fn": "shared_read", "cls": cls_, "text": text_, "attrs": ["is_valid", "formatted", "country_code"] + (["bic", "bank_name"] if cls_ == "iban" else ["exists", "domestic_bank_codes"])}, f"shared:{cls_}:{text_}")
+    # objects created earlier in a history handed back to the constructors (under another country code, to the
+    # same class, as BBAN argument of from_bban): spread over the pool so that every history meets them
+    n0 = len(pool)
+    for k, other in enumerate(["MC", "KM", "AT", "GB", "SM", "XX"]):
+        pool.insert((k + 1) * n0 // 7, {"fn": "reuse_kept", "other": other})
+    # public-looking registry calls that fail: they must leave everything as it was
+    for k, d in enumerate([{"fn": "registry_fail", "how": "get_unknown"}, {"fn": "registry_fail", "how": "build_index_missing_key"}, {"fn": "registry_fail", "how": "manipulate_raises"}]):
+        pool.insert((2 * k + 1) * n0 // 7, d)
     return pool
